@@ -2140,3 +2140,322 @@ lx_dispatch_arm_harness!(2, 12, 6, lx_semi_text_arm_percent_k2, semi_text_modes,
 lx_dispatch_arm_harness!(2, 12, 6, lx_arg_value_arm_nl_k2, arg_value_modes, '\n', |t| true, |lx, p, e, a, b| lx.dispatch_macro_call_arg_value('\n', a, p));
 lx_dispatch_arm_harness!(2, 12, 6, lx_str_call_arm_nl_k2, str_call_modes, '\n', |t| true, |lx, p, e, a, b| lx.dispatch_macro_str_quoted_expr('\n', b, p));
 lx_dispatch_arm_harness!(2, 12, 6, lx_stat_opts_arm_percent_k2, stat_opts_modes, '%', |t| !ch_at(&t, 1).map_or(false, ref_name_start), |lx, p, e, a, b| lx.dispatch_macro_stat_opts_text_expr('%'));
+
+// =============================================================================================
+// Macro strings / operands in arithmetic-logical expressions (C06, C13): what the scanner hands out
+
+lx_harness! {
+    #[kani::unwind(5)]
+    #[kani::stub(try_parse_decimal, stub_try_parse_decimal)]
+    #[kani::stub(try_parse_hex_integer, stub_try_parse_hex)]
+    #[kani::stub(is_macro_stat, stub_is_macro_stat)]
+    fn lx_eval_string_k3() {
+        let t = Txt::<3, 16>::any(PFX, &[]);
+        kani::assume(t.n >= 1);
+        let flags = any_eval_flags();
+        let pnl: u32 = kani::any();
+        let toc = flags.terminate_on_comma() && (pnl == 0 || !flags.parens_mask_comma());
+        let c0 = t.ch[0];
+        // first chars on which the dispatcher reaches the string scanner without consuming
+        kani::assume(!matches!(c0, '\'' | '"' | '/' | '&' | '%' | '*' | '(' | ')' | '|' | '¬' | '^' | '~' | '+' | '-' | '<' | '>' | '=' | '#'));
+        kani::assume(!(c0 == ',' && toc) && !(c0 == ';' && flags.terminate_on_semi()));
+        kani::assume(!matches!(c0, 'e' | 'n' | 'l' | 'g' | 'a' | 'o' | 'i' | 'E' | 'N' | 'L' | 'G' | 'A' | 'O' | 'I'));
+        let mut lx = setup(&t, &[LexerMode::Default, LexerMode::ExpectSymbol(TokenType::RPAREN, TokenChannel::DEFAULT), LexerMode::MacroEval { macro_eval_flags: flags, pnl }]);
+        let pre = snapshot(&lx, &t);
+        lx.lex_macro_string_in_macro_eval_context(flags, toc);
+        let pi = check_common(&lx, &t, &pre);
+        check_progress::<3, 16, 2>(&lx, &t, &pre, pi);
+        let tn = shadow::tok_n();
+        assert!(tn >= pre.tok_n + 1 && tn <= pre.tok_n + 2 && lx.errors.len() == pre.err_n && lx.mode_stack.len() == pre.stack_len, "C13: an operand scan yields the operand and/or its trailing blanks, nothing else");
+        let last = shadow::tok(tn - 1);
+        let (ls, le) = tok_range(&t, tn - 1, pi);
+        let all_ws = |s: usize, e: usize| {
+            let mut ok = true;
+            let mut i = 0;
+            while i < 3 {
+                if i >= s && i < e && !t.ch[i].is_whitespace() {
+                    ok = false;
+                }
+                i += 1;
+            }
+            ok
+        };
+        if last.token_type == TokenType::WS {
+            assert!(last.channel == TokenChannel::HIDDEN && le > ls && all_ws(ls, le), "C06/C13: blanks around operators are a hidden, non-empty, all-whitespace WS token");
+        }
+        if tn == pre.tok_n + 2 || last.token_type != TokenType::WS {
+            let op = shadow::tok(pre.tok_n);
+            let (s, e) = tok_range(&t, pre.tok_n, pi);
+            assert!(op.channel == TokenChannel::DEFAULT && e > s && s == pre.pi, "C06: operand token is non-empty and starts where the scan started");
+            assert!(matches!(op.token_type, TokenType::MacroString | TokenType::IntegerLiteral | TokenType::FloatLiteral | TokenType::FloatExponentLiteral), "C13: operand is text or a numeric literal");
+            if tn == pre.tok_n + 2 {
+                assert!(last.token_type == TokenType::WS && !t.ch[e - 1].is_whitespace(), "C13: the operand ends where its trailing blanks begin");
+            } else if t.ch[e - 1].is_whitespace() {
+                // blanks stay inside the operand text only before a sub-token that continues the operand
+                assert!(matches!(ch_at(&t, e), Some('\'' | '"' | '/' | '&' | '%')), "C13: trailing blanks of an operand are hidden before an operator or delimiter");
+            }
+            if op.token_type != TokenType::MacroString {
+                // numeric operands are standalone: only numeric-literal characters
+                let mut i = 0;
+                while i < 3 {
+                    if i >= s && i < e {
+                        assert!(t.ch[i].is_ascii_hexdigit() || matches!(t.ch[i], '.' | '+' | '-' | 'x' | 'X'), "C13/C08: a numeric operand token contains a non-numeric character");
+                    }
+                    i += 1;
+                }
+            }
+        }
+        kani::cover!(tn == pre.tok_n + 2 && t.nl_upto(pi) > 0, "operand followed by a line feed");
+        kani::cover!(tn == pre.tok_n + 1 && last.token_type == TokenType::WS);
+        kani::cover!(shadow::tok(pre.tok_n).token_type == TokenType::IntegerLiteral);
+        std::mem::forget(lx);
+    }
+}
+
+/// is_macro_stat hashes the identifier (phf/SipHash): arbitrary answer.
+pub(crate) fn stub_is_macro_stat(_input: &str) -> bool {
+    kani::any()
+}
+
+// =============================================================================================
+// Open code: statement-pending flag after a symbol / unknown character (C11), '*' comment prediction
+
+impl<'src> Lexer<'src> {
+    pub(crate) fn dead_ident(&mut self) {
+        kani::assume(false);
+    }
+}
+
+lx_harness! {
+    #[kani::unwind(5)]
+    #[kani::stub(Lexer::lex_numeric_literal, Lexer::stub_dead1)]
+    #[kani::stub(Lexer::lex_char_format, Lexer::stub_dead_bool)]
+    #[kani::stub(Lexer::lex_identifier, Lexer::dead_ident)]
+    #[kani::stub(Lexer::lex_macro_identifier, Lexer::stub_dead1)]
+    #[kani::stub(Lexer::lex_macro_comment, Lexer::dead_ident)]
+    #[kani::stub(Lexer::lex_macro_var_expr, Lexer::stub_dead_bool)]
+    #[kani::stub(Lexer::lex_single_quoted_str, Lexer::dead_ident)]
+    #[kani::stub(Lexer::lex_cstyle_comment, Lexer::dead_ident)]
+    #[kani::stub(Lexer::lex_ws, Lexer::dead_ident)]
+    fn lx_default_star() {
+        // '*' at the start of the remaining text: a comment statement iff no statement is pending
+        let t = Txt::<3, 16>::any(PFX, &['*']);
+        let mut lx = setup(&t, &[LexerMode::Default]);
+        let nest: bool = kani::any();
+        lx.macro_nesting_level = nest as u32;
+        let pend: bool = kani::any();
+        lx.set_pending_stat(pend);
+        let pre = snapshot(&lx, &t);
+        lx.dispatch_mode_default('*');
+        let pi = check_common(&lx, &t, &pre);
+        check_progress::<3, 16, 2>(&lx, &t, &pre, pi);
+        // reference
+        let mut semi = 4usize;
+        let mut macro_hit = false;
+        let mut i = 1;
+        while i < 3 {
+            if semi > 3 && !macro_hit && i < t.n {
+                if t.ch[i] == ';' {
+                    semi = i;
+                } else if nest && t.ch[i] == '%' && ch_at(&t, i + 1).map_or(false, ref_name_start) {
+                    macro_hit = true;
+                }
+            }
+            i += 1;
+        }
+        let comment = !pend && !macro_hit;
+        assert!(shadow::tok_n() == pre.tok_n + 1, "C11: one token");
+        let tk = shadow::tok(pre.tok_n);
+        if comment {
+            let end = if semi <= 3 { semi + 1 } else { t.n };
+            assert!(tk.token_type == TokenType::PredictedCommentStat && tk.channel == TokenChannel::COMMENT && pi == end, "C11/C06: a '*' that starts a statement begins a comment running to the next ';'");
+            assert!(lx.pending_stat() == pend, "C11: a comment statement does not start a statement");
+        } else {
+            let two = ch_at(&t, 1) == Some('*');
+            assert!(tk.token_type == if two { TokenType::STAR2 } else { TokenType::STAR } && tk.channel == TokenChannel::DEFAULT && pi == 1 + two as usize, "C11: '*' inside a statement is the multiplication / power operator");
+            assert!(lx.pending_stat(), "C11: an operator token leaves the statement pending");
+        }
+        assert!(lx.checkpoint.is_none() && lx.errors.len() == pre.err_n && lx.mode_stack.len() == pre.stack_len, "C01: comment prediction releases its checkpoint");
+        kani::cover!(comment && nest && t.nl_upto(pi) > 0);
+        kani::cover!(!comment && macro_hit, "rollback at a macro trigger");
+        kani::cover!(!comment && pend && pi == 2);
+        std::mem::forget(lx);
+    }
+}
+
+lx_harness! {
+    #[kani::unwind(5)]
+    #[kani::stub(Lexer::lex_numeric_literal, Lexer::stub_dead1)]
+    #[kani::stub(Lexer::lex_char_format, Lexer::stub_dead_bool)]
+    #[kani::stub(Lexer::lex_identifier, Lexer::dead_ident)]
+    #[kani::stub(Lexer::lex_macro_identifier, Lexer::stub_dead1)]
+    #[kani::stub(Lexer::lex_macro_comment, Lexer::dead_ident)]
+    #[kani::stub(Lexer::lex_macro_var_expr, Lexer::stub_dead_bool)]
+    #[kani::stub(Lexer::lex_single_quoted_str, Lexer::dead_ident)]
+    #[kani::stub(Lexer::lex_cstyle_comment, Lexer::dead_ident)]
+    #[kani::stub(Lexer::lex_ws, Lexer::dead_ident)]
+    #[kani::stub(Lexer::lex_predicted_comment, Lexer::stub_dead_bool)]
+    fn lx_default_symbol() {
+        // any character of the "symbol or unknown" class (not '*', '.', '$': own harnesses)
+        let t = Txt::<2, 12>::any(PFX, &[]);
+        kani::assume(t.n >= 1);
+        let c = t.ch[0];
+        kani::assume(!c.is_whitespace() && !matches!(c, '\'' | '"' | ';' | '/' | '&' | '%' | '0'..='9' | '*' | '.' | '$') && !ref_name_start(c));
+        let mut lx = setup(&t, &[LexerMode::Default]);
+        lx.set_pending_stat(false);
+        let pre = snapshot(&lx, &t);
+        lx.dispatch_mode_default(c);
+        let pi = check_common(&lx, &t, &pre);
+        check_progress::<2, 12, 2>(&lx, &t, &pre, pi);
+        assert!(shadow::tok_n() == pre.tok_n + 1 && pi >= pre.pi + 1 && pi <= pre.pi + 2, "C11/C06: a symbol is one token of one or two characters");
+        let tk = shadow::tok(pre.tok_n);
+        let known = matches!(c, '(' | ')' | '{' | '}' | '[' | ']' | '!' | '¦' | '|' | '¬' | '^' | '~' | '∘' | '+' | '-' | '<' | '>' | ',' | ':' | '=' | '@' | '#' | '?');
+        if known {
+            assert!(tk.channel == TokenChannel::DEFAULT && tk.token_type != TokenType::CatchAll, "C11/C06: operator symbols are default-channel tokens");
+        } else {
+            assert!(tk.channel == TokenChannel::HIDDEN && tk.token_type == TokenType::CatchAll && pi == pre.pi + 1, "C11/C06: any other character is a hidden one-character CatchAll");
+        }
+        assert!(lx.pending_stat(), "C11: every token other than a comment statement marks the statement as started");
+        kani::cover!(!known && c.len_utf8() == 4);
+        kani::cover!(known && pi == pre.pi + 2);
+        std::mem::forget(lx);
+    }
+}
+
+// =============================================================================================
+// Datalines (C06, C10, C11): keyword at statement start + blanks + ';' => start, data, terminator
+
+pub(crate) fn stub_parse_keyword_none(_ident: &str) -> Option<TokenType> {
+    None
+}
+
+macro_rules! lx_datalines_harness {
+    ($k:literal, $b:literal, $uw:literal, $name:ident, $four:literal, $fixed:expr) => {
+        lx_harness! {
+            #[kani::unwind($uw)]
+            #[kani::stub(parse_keyword, stub_parse_keyword_none)]
+            fn $name() {
+                let fx: &[char] = $fixed;
+                let t = Txt::<$k, $b>::any(PFX, fx);
+                let kwl = fx.len();
+                // the identifier ends after the keyword
+                kani::assume(t.n == kwl || !(t.ch[kwl].is_ascii_alphanumeric() || t.ch[kwl] == '_' || (!t.ch[kwl].is_ascii() && det_xid_continue(t.ch[kwl]))));
+                let mut lx = setup(&t, &[LexerMode::Default]);
+                let prev_semi: bool = kani::any();
+                shadow::preload_token(shadow::mk_token(TokenChannel::DEFAULT, if prev_semi { TokenType::SEMI } else { TokenType::Identifier }, 1, 1, 0, Payload::None));
+                let pre = snapshot(&lx, &t);
+                lx.lex_identifier();
+                let pi = check_common(&lx, &t, &pre);
+                check_progress::<$k, $b, 2>(&lx, &t, &pre, pi);
+                // reference: blanks then ';' after the keyword, at statement start
+                let mut j = kwl;
+                let mut i = 0;
+                while i < $k {
+                    if i >= kwl && i == j && i < t.n && t.ch[i].is_whitespace() {
+                        j += 1;
+                    }
+                    i += 1;
+                }
+                let is_dl = prev_semi && j < t.n && t.ch[j] == ';';
+                if !is_dl {
+                    assert!(pi == kwl && shadow::tok_n() == pre.tok_n + 1 && shadow::tok(pre.tok_n).token_type == TokenType::Identifier, "C11: without ';' or not at statement start the keyword is an ordinary identifier");
+                } else {
+                    assert!(shadow::tok_n() == pre.tok_n + 3, "C10: a datalines start is followed by its data token and its terminator");
+                    let (a, b, c) = (shadow::tok(pre.tok_n), shadow::tok(pre.tok_n + 1), shadow::tok(pre.tok_n + 2));
+                    assert!(a.token_type == TokenType::DatalinesStart && b.token_type == TokenType::DatalinesData && c.token_type == TokenType::SEMI, "C10: start, data, terminator");
+                    assert!(t.idx_of(b.byte_offset.get() as usize) == Some(j + 1), "C06/C11: the start token ends with the statement's ';'");
+                    // data runs to the first terminator (';' or ';;;;') or to the end of input
+                    let mut end = t.n;
+                    let mut found = false;
+                    let mut i = 0;
+                    while i < $k {
+                        if i > j && !found && i < t.n && t.ch[i] == ';' {
+                            if !$four || (i + 3 < t.n && t.ch[i + 1] == ';' && t.ch[i + 2] == ';' && t.ch[i + 3] == ';') {
+                                end = i;
+                                found = true;
+                            }
+                        }
+                        i += 1;
+                    }
+                    assert!(t.idx_of(c.byte_offset.get() as usize) == Some(end), "C06/C11: the data token ends at the terminator");
+                    let tl = if found { if $four { 4 } else { 1 } } else { 0 };
+                    assert!(pi == end + tl, "C06: the terminator token consists of the terminator characters only");
+                    assert!((lx.errors.len() == pre.err_n + 1) == !found, "C09: an unterminated block is reported once");
+                }
+                kani::cover!(is_dl && j > kwl);
+                kani::cover!(!is_dl && prev_semi);
+                std::mem::forget(lx);
+            }
+        }
+    };
+}
+lx_datalines_harness!(7, 32, 9, lx_datalines_cards, false, &['c', 'A', 'r', 'd', 's']);
+lx_datalines_harness!(6, 28, 8, lx_datalines_cards_k6, false, &['c', 'A', 'r', 'd', 's']);
+
+// =============================================================================================
+// String expression text (C07): the dispatcher-consumed '%' belongs to the token text and payload
+
+lx_harness! {
+    #[kani::unwind(6)]
+    #[kani::stub(Lexer::lex_macro_identifier, Lexer::stub_dead1)]
+    fn lx_str_expr_percent_k4() {
+        let t = Txt::<4, 20>::any(PFX, &['%']);
+        kani::assume(!ch_at(&t, 1).map_or(false, ref_name_start));
+        let allow: bool = kani::any();
+        let mut lx = setup(&t, &[LexerMode::Default, LexerMode::StringExpr { allow_stat: allow }]);
+        shadow::preload_token(shadow::mk_token(TokenChannel::DEFAULT, TokenType::MacroVarTerm, 1, 1, 0, Payload::None));
+        shadow::preload_literal_bytes(1);
+        let pre = snapshot(&lx, &t);
+        lx.dispatch_mode_str_expr('%', allow);
+        let pi = check_common(&lx, &t, &pre);
+        check_progress::<4, 20, 2>(&lx, &t, &pre, pi);
+        // reference: text up to the closing quote / macro trigger / end of input, "" collapses
+        let mut kept = [true; 4];
+        let mut stop = t.n;
+        let mut done = false;
+        let mut skip = 0usize;
+        let mut i = 1;
+        while i < 4 {
+            if !done && i < t.n {
+                if skip > 0 {
+                    skip -= 1;
+                } else {
+                    let c = t.ch[i];
+                    if c == '"' {
+                        if ch_at(&t, i + 1) == Some('"') {
+                            kept[i + 1] = false;
+                            skip = 1;
+                        } else {
+                            stop = i;
+                            done = true;
+                        }
+                    } else if c == '&' {
+                        let (m, cnt) = ref_macro_amp(&t, i);
+                        if m {
+                            stop = i;
+                            done = true;
+                        } else {
+                            skip = cnt - 1;
+                        }
+                    } else if c == '%' && ref_macro_percent(&t, i) {
+                        stop = i;
+                        done = true;
+                    }
+                }
+            }
+            i += 1;
+        }
+        assert!(pi == stop && shadow::tok_n() == pre.tok_n + 1, "C06: string-expression text runs to the closing quote or the next macro trigger");
+        let tk = shadow::tok(pre.tok_n);
+        assert!(tk.byte_offset.get() as usize == t.byte_at(pre.pi), "C02: the text token starts at the '%' the dispatcher consumed");
+        if stop == t.n && !done {
+            assert!(tk.token_type == TokenType::StringExprEnd && lx.errors.len() == pre.err_n + 1 && lx.mode_stack.len() == pre.stack_len - 1, "C10: unterminated string expression closed and reported");
+        } else {
+            assert!(tk.token_type == TokenType::StringExprText && lx.errors.len() == pre.err_n && lx.mode_stack.len() == pre.stack_len, "C06: text token inside the string expression");
+        }
+        check_payload::<4, 20, 5>(&t, pre.pi, stop, &kept, tk.payload, pre.lit_n);
+        kani::cover!(matches!(tk.payload, Payload::StringLiteral(..)) && done);
+        kani::cover!(matches!(tk.payload, Payload::StringLiteral(..)) && !done);
+        std::mem::forget(lx);
+    }
+}
